@@ -264,6 +264,13 @@ func (h *handler1) handleClientPublish(ctx context.Context, snPublish *snPkts1.P
 func (h *handler1) handleBrokerPublish(ctx context.Context, mqPublish *mqPkts.PublishPacket) error {
 	msgID := mqPublish.MessageID
 
+	// MQTT-SN has no fragmentation: a message which does not fit into one
+	// datagram (see snPkts1.MaxPacketLen) cannot be delivered to the client.
+	if len(mqPublish.Payload) > snPkts1.MaxPayloadLength || len(mqPublish.TopicName) > snPkts1.MaxPayloadLength {
+		return fmt.Errorf("broker PUBLISH too long for MQTT-SN (topic %d B, payload %d B)",
+			len(mqPublish.TopicName), len(mqPublish.Payload))
+	}
+
 	// Get TopicID
 	var needsRegister bool
 	var topicID uint16
